@@ -584,6 +584,9 @@ class World:
         if self.fit_fleet[f] is None and k < 0.7:
             self.emit('fladd %d %d' % (fl, f))
             self.fit_fleet[f] = fl
+        elif self.fit_fleet[f] is not None and k < 0.15:
+            # removal from a fleet the fit is not in (it is in the other one): KeyError, nothing changes
+            self.emit('flrm %d %d' % (3 - self.fit_fleet[f], f))
         elif self.fit_fleet[f] is not None and k < 0.8:
             self.emit('flrm %d %d' % (self.fit_fleet[f], f))
             self.fit_fleet[f] = None
